@@ -342,7 +342,10 @@ func vfGenC08(t *rapid.T) vfCaseC08 {
 	return c
 }
 
-const vfC08Base = 64 * 1024
+// /gc/heap/allocs:bytes is flushed per P in batches, so a delta can include up to a
+// few hundred KiB allocated just before the call; the bound is about count-driven
+// allocations, which are megabytes and more.
+const vfC08Base = 512 * 1024
 
 // vfRunC08 decides one (entry, input) pair.
 func vfRunC08(ctx *vfCtx, c vfCaseC08) {
